@@ -49,6 +49,8 @@ class Sim(object):
     def __init__(self, source, import_digest, import_names=None):
         self.src = source
         self.cfg = source.cfg
+        self.hs = self.cfg.get('hstride', 64)
+        self.rs = self.cfg.get('rslots', 32)
         self.pool = Pool()
         self.import_digest = import_digest
         self.pm_prefix = os.path.dirname(ops.MODS['Angle'].__file__) + os.sep
@@ -162,7 +164,7 @@ class Sim(object):
         entry = ENTRIES.get(name)
         if entry is None or not ops.available(entry.kind, entry.target):
             return None
-        b = Builder(self.pool, op)
+        b = Builder(self.pool, op, None, self.hs, self.rs)
         try:
             recv = b.build(op['recv']) if op.get('recv') else None
             b.recv_obj = recv
@@ -171,7 +173,7 @@ class Sim(object):
         except MissingHandle:
             return None
         for x in [op.get('recv')] + list(op['args']) + list(op['kwargs'].values()):
-            if x and 'h' in x and x['h'] >= HSTRIDE and x['h'] % HSTRIDE < 32:
+            if x and 'h' in x and x['h'] >= self.hs and x['h'] % self.hs < self.rs:
                 self.count('probe.result_reused_as_argument')
                 if x is op.get('recv') and entry.effect.startswith('mutator'):
                     self.count('probe.result_as_mutator_receiver')
@@ -205,6 +207,8 @@ class Sim(object):
             S = self.S
         if op['name'] == '@alias':
             return self.do_alias(op)
+        if op['name'] == '@edit_list':
+            return self.do_edit_list(op)
         ctx = self.begin(op, depth)
         if ctx is None:
             self.count('op_skipped')
@@ -253,13 +257,52 @@ class Sim(object):
         if o is None:
             self.records.append({'id': op['id'], 'name': '@alias', 'outcome': 'skip'})
             return
-        self.pool.register(op['id'] * HSTRIDE, o, op['task'], born=op['id'])
+        self.pool.register(op['id'] * self.hs, o, op['task'], born=op['id'])
         self.count('alias')
         inf = self.pool.infoof(o)
         if inf is not None and inf.const:
             self.count('probe.alias_of_constant')
         self.events.append(('alias', op['id'], src))
         self.records.append({'id': op['id'], 'name': '@alias', 'outcome': 'alias'})
+
+    def do_edit_list(self, op):
+        """The CALLER edits a list it owns (one plain-number leaf), as any caller may: the library
+        documents that it copies values out of sequences, so nothing else may change."""
+        pool = self.pool
+        lst = pool.handles.get(op['args'][0]['h'])
+        inf = pool.infoof(lst)
+        rec = {'id': op['id'], 'name': '@edit_list', 'outcome': 'skip'}
+        ok = isinstance(lst, list) and inf is not None and inf.rlocks == 0 and not inf.xlock
+        if ok:
+            tgt = lst
+            path = list(op['path'])
+            try:
+                for i in path[:-1]:
+                    tgt = tgt[i]
+                ok = isinstance(tgt, list) and isinstance(tgt[path[-1]], (int, float)) and \
+                    not isinstance(tgt[path[-1]], bool)
+            except Exception:
+                ok = False
+        if ok:
+            tgt[path[-1]] = float.fromhex(op['value'])
+            # legitimate caller-side write: refresh the model of the list and of every pooled
+            # container that (transitively) holds it
+            changed = {id(lst), id(tgt)}
+            grew = True
+            while grew:
+                grew = False
+                for i2 in pool.info.values():
+                    if i2.kind in ('list', 'tuple') and id(i2.obj) not in changed and \
+                            any(id(x) in changed for x in i2.obj):
+                        changed.add(id(i2.obj))
+                        grew = True
+            for i2 in pool.info.values():
+                if id(i2.obj) in changed:
+                    i2.snap = snap(i2.obj)
+            rec['outcome'] = 'edit'
+            self.count('probe.caller_edited_own_list')
+        self.events.append(('edit_list', op['id'], rec['outcome']))
+        self.records.append(rec)
 
     def finish(self, ctx, outcome, reads):
         op, e = ctx.op, ctx.entry
@@ -357,7 +400,7 @@ class Sim(object):
 
     def register_result(self, ctx, val):
         op, e, pool = ctx.op, ctx.entry, self.pool
-        base = op['id'] * HSTRIDE
+        base = op['id'] * self.hs
         eff = e.effect
         if eff == 'rebind':
             hid = op['recv']['h']
